@@ -413,7 +413,50 @@ def value_id(v, ids):
     return ids[k]
 
 
+def coercion_pairs(ctx):
+    """an integer handed to a boolean parameter means `n != 0`, a boolean handed to an integer parameter means 0 / 1:
+    (program with the coerced value, program with the plain literal it designates)"""
+    IP, INT, STR, BOOL, SOCK = gen.IP, gen.INT, gen.STR, gen.BOOL, gen.SOCK
+    imp = [gen.Import("ipv4")]
+    out = []
+    ints = [0, 1, 2, 255, 256, 0x2000, 0x4000, 65536, 2**32, 2**40, 2**64 - 1]
+    for n in ints:
+        for flag in ("evil", "df", "mf"):
+            mk = lambda v: imp + [gen.Do(gen.Call("ipv4::datagram", IP("1.2.3.4"), IP("5.6.7.8"), _x=[STR(b"xy")], **{flag: v}))]
+            out.append(("%s: %d" % (flag, n), mk(INT(n)), mk(BOOL(n != 0))))
+        mk = lambda v: imp + [gen.Do(gen.Call("ipv4::udp::unicast", SOCK("1.2.3.4:53"), SOCK("5.6.7.8:5353"), _x=[STR(b"hello")], raw=v))]
+        out.append(("raw: %d" % n, mk(INT(n)), mk(BOOL(n != 0))))
+        mk = lambda v: imp + [gen.Let("u", gen.Call("ipv4::udp::flow", SOCK("1.2.3.4:53"), SOCK("5.6.7.8:5353"))),
+                              gen.Do(gen.Call("u.client_dgram", _x=[STR(b"hello")], csum=v))]
+        out.append(("csum: %d" % n, mk(INT(n)), mk(BOOL(n != 0))))
+    for b in (True, False):
+        mk = lambda v: imp + [gen.Do(gen.Call("ipv4::datagram", IP("1.2.3.4"), IP("5.6.7.8"), _x=[STR(b"xy")], ttl=v, id=v, proto=v))]
+        out.append(("ttl/id/proto: %s" % b, mk(BOOL(b)), mk(INT(1 if b else 0))))
+    return out
+
+
+def run_coercions(ctx):
+    pairs = coercion_pairs(ctx)
+    cases = []
+    for i, (what, a, b) in enumerate(pairs):
+        for tag, st in (("x", a), ("y", b)):
+            c = Case()
+            c.name, c.stmts, c.files, c.text, c.meta, c.gen = "%s%d" % (tag, i), st, {}, None, [], {"what": what}
+            cases.append(c)
+    diff.run_both(ctx, "c11c", cases)
+    by = {c.name: c for c in cases}
+    for i, (what, a, b) in enumerate(pairs):
+        ctx.count("coerced bool/int arguments")
+        x, y = by["x%d" % i], by["y%d" % i]
+        if x.impl.status != "ok" or y.impl.status != "ok" or x.impl.pcap != y.impl.pcap:
+            ctx.fail("wrong-binding", "%s does not build the packet of the literal it designates (%s vs %s)"
+                     % (what, diff.outcome_class(x)[0], diff.outcome_class(y)[0]), diff.replay_of(x, {"same_as_program": y.text}))
+        elif x.model["status"] == "ok" and x.impl.pcap != x.model["pcap"]:
+            ctx.fail("packet-differs", "packet differs from the model on %s" % what, diff.replay_of(x), disagreement=True)
+
+
 def run_programs(ctx, funcs):
+    run_coercions(ctx)
     cases, binds = program_cases(ctx, funcs)
     if not cases:
         return
